@@ -345,9 +345,171 @@ fn table_case<E: Elem>(c: &mut Ctx, rng: &mut Rng) {
     }
 }
 
+/// Long request lists (N = 33..130): N distinct present keys, optionally with ONE key requested twice at chosen
+/// positions (first/last, either side of 32 and 64, neighbours, far apart). With a duplicate the call must panic,
+/// without one it must return N pairwise disjoint references in request order - whatever data structure the
+/// duplicate check uses for long lists (bit masks, sorting, hashing) has its boundaries somewhere in here.
+fn many_large<K: Elem, V: Elem, const N: usize>(c: &mut Ctx, rng: &mut Rng) {
+    use crate::plan::PlanBH;
+    let plan = *rng.pick(&[Plan::Mixed, Plan::Ident, Plan::IdentOneTag, Plan::Stride]);
+    let mut d: MapDrv<K, V> = MapDrv::new(PlanBH::new(plan, rng.next()), (N as u32 + 40).min(K::ID_SPACE), *rng.pick(&[0usize, 28, 200]));
+    let n = (N as u32 + 8).min(K::ID_SPACE);
+    if (n as usize) < N {
+        return;
+    }
+    for id in 0..n {
+        let (k, kg) = d.mk_k(id);
+        let (v, vv, vg) = d.mk_v(rng);
+        d.map.insert(k, v);
+        d.model.insert(id, kg, vv, vg);
+    }
+    // a random injection of positions into keys
+    let mut ids: Vec<u32> = (0..n).collect();
+    for i in (1..ids.len()).rev() {
+        ids.swap(i, rng.usize_below(i + 1));
+    }
+    ids.truncate(N);
+    let spots: [usize; 14] = [0, 1, 2, 30, 31, 32, 33, 62, 63, 64, 65, 66, N - 2, N - 1];
+    let dup: Option<(usize, usize)> = if rng.chance(3, 4) {
+        let a = *rng.pick(&spots) % N;
+        let b = if rng.chance(1, 2) { *rng.pick(&spots) % N } else { rng.usize_below(N) };
+        if a == b {
+            None
+        } else {
+            Some((a.min(b), a.max(b)))
+        }
+    } else {
+        None
+    };
+    if let Some((a, b)) = dup {
+        ids[b] = ids[a];
+    }
+    let refs: Vec<KeyRef> = ids.iter().map(|id| KeyRef(*id)).collect();
+    let ks: [&KeyRef; N] = std::array::from_fn(|i| &refs[i]);
+    let what = format!("HashMap<{},{}>::get_many_mut with {} requests ({:?}), duplicate at positions {:?}", K::NAME, V::NAME, N, plan, dup);
+    let mut desc = d.describe("C15 long request list");
+    desc.set("N", Json::i(N));
+    c.describe(desc);
+    c.evaluations += 1;
+    c.sig_parts(&[300 + N as u64, dup.map_or(0, |(a, b)| 1 + (a >= 32) as u64 + (a >= 64) as u64 + 4 * ((b >= 32) as u64 + (b >= 64) as u64))]);
+    let kv = rng.chance(1, 2);
+    let map = &mut d.map;
+    let r = catch_expected(|| {
+        let mut addrs = Vec::new();
+        let mut keys_seen = Vec::new();
+        if kv {
+            for (i, x) in map.get_many_key_value_mut(ks).into_iter().enumerate() {
+                if let Some((k, v)) = x {
+                    keys_seen.push((i, k.id()));
+                    addrs.push((v as *mut V as usize, std::mem::size_of::<V>()));
+                }
+            }
+        } else {
+            for v in map.get_many_mut(ks).into_iter().flatten() {
+                addrs.push((v as *mut V as usize, std::mem::size_of::<V>()));
+            }
+        }
+        (addrs, keys_seen)
+    });
+    match r {
+        Err(msg) => {
+            crate::check!(msg.contains("duplicate"), "{}: unexpected panic: {}", what, msg);
+            crate::check!(dup.is_some(), "{}: panicked although all requested keys are distinct", what);
+            c.bump("duplicate_panics_observed");
+        }
+        Ok((addrs, keys_seen)) => {
+            no_overlap(&what, &addrs);
+            crate::check!(dup.is_none(), "{}: returned {} references although one key was requested twice", what, addrs.len());
+            crate::check!(addrs.len() == N, "{}: {} of {} present keys were found", what, addrs.len(), N);
+            for (i, kid) in keys_seen {
+                crate::check!(kid == ids[i], "{}: result {} belongs to key {}, requested was {}", what, i, kid, ids[i]);
+            }
+            c.bump("calls_returned");
+            c.bump("long_lists_returned");
+        }
+    }
+    d.validate(c, "get_many_mut (long list)");
+}
+
+/// The same through HashTable::get_many_mut (hashes + one equality closure over the request index).
+fn table_many_large<E: Elem, const N: usize>(c: &mut Ctx, rng: &mut Rng) {
+    use crate::plan::{plan_hash, PlanBH};
+    use crate::states::Coll;
+    let plan = *rng.pick(&[Plan::Mixed, Plan::Ident, Plan::IdentOneTag]);
+    let bh = PlanBH::new(plan, rng.next());
+    let n = N as u32 + 8;
+    let mut t: TableC<E> = TableC::with_cap(bh, *rng.pick(&[0usize, 200]));
+    for id in 0..n {
+        t.put(id, 1);
+    }
+    let mut ids: Vec<u32> = (0..n).collect();
+    for i in (1..ids.len()).rev() {
+        ids.swap(i, rng.usize_below(i + 1));
+    }
+    ids.truncate(N);
+    let spots: [usize; 12] = [0, 1, 31, 32, 33, 62, 63, 64, 65, 66, N - 2, N - 1];
+    let dup: Option<(usize, usize)> = if rng.chance(3, 4) {
+        let (a, b) = (*rng.pick(&spots) % N, rng.usize_below(N));
+        if a == b {
+            None
+        } else {
+            Some((a.min(b), a.max(b)))
+        }
+    } else {
+        None
+    };
+    if let Some((a, b)) = dup {
+        ids[b] = ids[a];
+    }
+    let hashes: [u64; N] = std::array::from_fn(|i| plan_hash(bh.plan, bh.salt, ids[i] as u64));
+    let what = format!("HashTable<{}>::get_many_mut with {} requests ({:?}), duplicate at positions {:?}", E::NAME, N, plan, dup);
+    c.evaluations += 1;
+    c.sig_parts(&[400 + N as u64, dup.is_some() as u64]);
+    let idv = ids.clone();
+    let tab = &mut t.0;
+    let r = catch_expected(move || {
+        let mut addrs = Vec::new();
+        for (i, x) in tab.get_many_mut(hashes, |i, e| e.id() == idv[i]).into_iter().enumerate() {
+            if let Some(e) = x {
+                addrs.push((i, e.id(), e as *mut E as usize));
+            }
+        }
+        addrs
+    });
+    match r {
+        Err(msg) => {
+            crate::check!(msg.contains("duplicate"), "{}: unexpected panic: {}", what, msg);
+            crate::check!(dup.is_some(), "{}: panicked although all requests are distinct", what);
+            c.bump("duplicate_panics_observed");
+        }
+        Ok(addrs) => {
+            let a2: Vec<(usize, usize)> = addrs.iter().map(|x| (x.2, std::mem::size_of::<E>())).collect();
+            no_overlap(&what, &a2);
+            crate::check!(dup.is_none(), "{}: returned although one element was requested twice", what);
+            crate::check!(addrs.len() == N && addrs.iter().all(|(i, id, _)| *id == ids[*i]), "{}: results are not the requested elements in request order", what);
+            c.bump("long_lists_returned");
+        }
+    }
+    t.validate(&what);
+}
+
 pub fn run(c: &mut Ctx) {
     c.run_scenarios(|c, idx, rng| match crate::util::mix(idx) % 24 {
-        6..=23 => match crate::util::mix(idx) % 6 {
+        23 => match rng.below(12) {
+            0 => many_large::<P8, P8, 33>(c, rng),
+            1 => many_large::<P8, T24, 34>(c, rng),
+            2 => many_large::<T24, T24, 47>(c, rng),
+            3 => many_large::<P8, P8, 64>(c, rng),
+            4 => many_large::<P8, P8, 65>(c, rng),
+            5 => many_large::<T24, P8, 66>(c, rng),
+            6 => many_large::<P8, P8, 70>(c, rng),
+            7 => many_large::<P8, P8, 130>(c, rng),
+            8 => table_many_large::<P8, 33>(c, rng),
+            9 => table_many_large::<T24, 65>(c, rng),
+            10 => table_many_large::<P8, 66>(c, rng),
+            _ => table_many_large::<P8, 129>(c, rng),
+        },
+        6..=22 => match crate::util::mix(idx) % 6 {
             0 => map_case::<P8, P8>(c, rng),
             1 => map_case::<T24, T24>(c, rng),
             2 => map_case::<B1, L200>(c, rng),
